@@ -168,6 +168,14 @@ static void check_frame(const uni::Spec & spec, const std::set<uint32_t> & pad, 
         for (auto & v : l.vars) { if (layout_known) g_allfields[spec.cls->name].insert(v.path); if (!layout_known || v.count == 0 || inside(v.data, v.count * v.elem)) ser.insert(v.path); }
         if (!layout_known) { ser.erase("apiMajor"); for (auto it = ser.begin(); it != ser.end();) it = (it->find("_present") != std::string::npos) ? ser.erase(it) : std::next(it); }
         for (auto & s : ser) g_serialised[spec.cls->name].insert(s);
+        /* the fields the selected layout variant must serialise by the format (hand-written table): a writer and a reader
+         * that agree on dropping an optional part are not a round trip */
+        if (layout_known)
+            for (auto & rf : uni::required_fields(spec, *o))
+                if (!ser.count(rf)) {
+                    report("C01", sk + "|variant-field-dropped:" + rf, "field " + rf + " belongs to the layout variant this object selects but is not serialised", lab);
+                    ser.insert(rf);
+                }
         for (auto & sc : l.scalars)   /* layout selectors the decoder restores from the size: part of the object's value */
             if (sc.path == "apiMajor" || sc.path.find("_present") != std::string::npos) ser.insert(sc.path);
         std::string df = rv::diff(d1, d2, [&](const std::string & p) {
